@@ -483,3 +483,9 @@ mod tests {
 			.unwrap();
 	}
 }
+
+/// Verification hook for [`next_value_size`].
+#[cfg(feature = "verif")]
+pub(crate) fn verif_value_size(input: &[u8]) -> Result<usize, String> {
+	next_value_size(input, DEPTH_LIMIT).map_err(|e| e.to_string())
+}
